@@ -316,7 +316,7 @@ func supervise(o supOpts, onResult func(chunk int, res string), onEvent func(ev 
 					onEvent(*ev)
 					mu.Unlock()
 					if o.AllFSDie && ev.Kind == "crash" && ev.Phase != phaseExec {
-						for f := range featureSets {
+						for f := ev.F; f < len(featureSets); f++ {
 							t.Skip = append(t.Skip, skipKey{K: ev.K, F: f})
 						}
 					} else {
